@@ -19,7 +19,7 @@ import bc
 import common
 
 MANIFEST = dict(
-    text='Theorems (props/C13.v, 22, all closed under the global context) about a hand-written Gallina model of Broadcaster.broadcast. '
+    text='Theorems (props/C13.v, 28, all closed under the global context) about a hand-written Gallina model of Broadcaster.broadcast. '
          'Join [bcast] (outer alignment on shared level names / cross product on disjoint ones, keys over obj levels ++ new parameter levels): '
          'same_index; rows_carry_restricted_value (every result row carries exactly the payload the original held for the row key restricted to the '
          "original's levels, or NaN when it has no such key -- unbounded: all level layouts, level orders, key sets); no_object_row_lost / "
@@ -30,12 +30,17 @@ MANIFEST = dict(
          'injective on the tables), impl_rows_carry_restricted_value, recode_transparent_refuted (known finding), operands_restored on every normal return, '
          'exception_iff, operands_left_recoded_on_exception. Dispatch of Broadcaster.broadcast in front of it [broadcast_top]: paramset_iff (only a Series with exactly one, '
          'unnamed, level is a set of parameters), row_indexed_joined_as_is (DataFrame / several levels even if all unnamed / any named level, however the name looks: joined as '
-         'it is), object_levels_survive, paramset_on_parameter_levels. The model (including the observed pandas align/join behaviour and its `equals` short-circuit) is tied '
+         'it is), object_levels_survive, paramset_on_parameter_levels. Options / index kinds (Core/BroadcastOpts.v): a single level may be held by an Index, a one-level MultiIndex or a '
+         'RangeIndex; range_coded_by_value (the re-coding looks VALUES up whatever holds them), positional_code_only_if + range_positional_refuted (coding a RangeIndex by position is right only if '
+         'the level table lists its values first and in order; witness: object keys 2,0,3,1 against RangeIndex(4) of the same name); droplevel [drop_prm] = the aligned rows grouped by the '
+         'result levels without the dropped ones: drop_prm_keys / drop_prm_one_row_per_key (exactly the keys of the aligned rows without the dropped components, each once: rows are told apart by '
+         'key, equal values never merge rows), drop_prm_carries (each carries what the original parameter held for that key restricted to its levels, when only levels the parameter lacks are dropped). The model (including the observed pandas align/join behaviour and its `equals` short-circuit) is tied '
          'to the code by vm_compute correspondence on generated layouts on every run; the property oracle runs on the implementation on every run.',
     note=common.TB_NOTE + 'all C13 theorems are closed under the global context. Model is hand-written (pandas align/join behaviour included as '
          'observed): the correspondence harness (generator, canonicalisation of pandas objects into key/row lists, Coq literals) is trusted; '
          'payloads are integer-valued floats so that a row identifies its origin exactly; float arithmetic only in the downstream Woehler relation '
-         '(compared at 1e-12 relative against scalar calls of the same implementation); the droplevel option and the HaighDiagram callers are not covered.',
+         '(compared at 1e-12 relative against scalar calls of the same implementation); droplevel is exercised with levels that only the object has (the documented use, HaighDiagram.transform) '
+         'and not together with integer level names (open finding integer-level-name); value ties are generated as whole equal rows; the HaighDiagram callers themselves are not covered (C12).',
     technique='Coq proof over hand-written Gallina model + vm_compute correspondence + property oracle on the implementation',
     design='6/C13')
 
@@ -98,20 +103,41 @@ def cls_one_level_mi(d):
     return bc.one_level_multiindex(O, P) and str(d.get('exception', '')).startswith('KeyError(None')
 
 
-CLASSES = {'coincident_codes': cls_coincident, 'contained_extra_key': cls_contained, 'series_nonstring_keys_array': cls_nonstring,
+def droplevel_one_level_left(O, P, D):
+    """Class of the known finding C13/droplevel-one-level-left: droplevel given, the operands share a level (align branch), the
+    result has more than two levels and exactly ONE of them is left for the parameter after dropping."""
+    if not D or (O.kind == 'S' and O.levels == [None]):
+        return False
+    tot = bc.total_levels(O.levels, P.levels)
+    return bool(bc.shared_levels(O.levels, P.levels)) and len(tot) > 2 and len([n for n in tot if n is None or n not in D]) == 1
+
+
+def cls_droplevel_one_left(d):
+    """`prm.groupby(prm_columns).first()` with one remaining column returns a plain Index, on which
+    `prm.reorder_levels(prm_columns)` (taken when the aligned object has more than two levels) raises."""
+    if 'prm' not in d or not isinstance(d.get('prm'), dict) or not d.get('droplevel'):
+        return False
+    O, P = _ops(d)
+    exc = str(d.get('exception', ''))
+    return droplevel_one_level_left(O, P, d['droplevel']) and (
+        exc.startswith("TypeError('Can only reorder levels on a hierarchical axis") or exc.startswith("Exception('Can only reorder levels on a hierarchical axis"))
+
+
+CLASSES = {'droplevel_one_level_left': cls_droplevel_one_left, 'coincident_codes': cls_coincident, 'contained_extra_key': cls_contained, 'series_nonstring_keys_array': cls_nonstring,
            'integer_level_name': cls_int_level_name, 'one_level_multiindex': cls_one_level_mi}
 
 
 # ----------------------------------------------------------------------------------------- one frame-to-frame case
 
 class Case:
-    def __init__(self, O, P):
-        self.O, self.P = O, P
+    def __init__(self, O, P, D=None):
+        self.O, self.P, self.D = O, P, (list(D) if D else None)
         obj, prm = O.build(), P.build()
         o0, p0 = bc.snapshot(obj), bc.snapshot(prm)
-        st, p, o = bc.run_impl(obj, prm)
-        self.ob = bc.observe(O, P, obj, prm, st, p, o)
-        self.intact = bc.same_operand(obj, o0) and bc.same_operand(prm, p0)
+        d0 = list(self.D) if self.D else None
+        st, p, o = bc.run_impl(obj, prm, **({'droplevel': d0} if d0 else {}))
+        self.ob = bc.observe(O, P, obj, prm, st, p, o, droplevel=self.D or ())
+        self.intact = bc.same_operand(obj, o0) and bc.same_operand(prm, p0) and d0 == self.D
         self.inq = bc.in_quantifier(O, P)
 
     def failure(self):
@@ -128,15 +154,17 @@ class Case:
         return None
 
 
-def report(res, O, P, what, extra):
+def report(res, O, P, what, extra, D=None):
+    if D:
+        extra = dict(extra, droplevel=list(D))
     return res.violation(what, path='frame x frame', obj=O.describe(), prm=P.describe(), **extra)
 
 
-def shrink(O, P, what):
+def shrink(O, P, what, D=None):
     """Greedy: drop rows / columns while the same failure persists."""
     def fails(o, p):
         try:
-            f = Case(o, p).failure()
+            f = Case(o, p, D).failure()
         except Exception:
             return False
         return f is not None and f[0] == what
@@ -331,7 +359,7 @@ def corpus_cases():
     out = []
     for f in sorted(glob.glob(os.path.join(common.CORPUS, 'C13', '*.json'))):
         d = json.load(open(f))
-        out.append((bc.Operand.from_description(d['obj']), bc.Operand.from_description(d['prm'])))
+        out.append((bc.Operand.from_description(d['obj']), bc.Operand.from_description(d['prm']), d.get('droplevel')))
     return out
 
 
@@ -341,8 +369,10 @@ def frame_cases(res, pairs, tag):
     stats = {}
     nontriv = set()
     reported = {}
-    for O, P in pairs:
-        c = Case(O, P)
+    def count(k):
+        stats[k] = stats.get(k, 0) + 1
+    for O, P, D in pairs:
+        c = Case(O, P, D)
         lo = [] if (O.kind == 'S' and O.levels == [None]) else O.levels
         lay = bc.layout(lo, P.levels)
         outcome = 'raise' if c.ob.raised is not None else ('unaligned' if c.ob.unaligned else 'ok')
@@ -361,16 +391,44 @@ def frame_cases(res, pairs, tag):
             stats['Series object with several levels, all unnamed'] = stats.get('Series object with several levels, all unnamed', 0) + 1
         if O.kind == 'S' and len(O.levels) == 1 and O.levels[0] is not None and not O.levels[0]:
             stats['Series object with one level whose name is falsy'] = stats.get('Series object with one level whose name is falsy', 0) + 1
+        # ---- the options / layouts beyond level names and keys (counted: evidence of what the generated stream reaches)
+        sh_named = bc.shared_levels(lo, P.levels)
+        if D:
+            count('option droplevel: ' + ('shared levels (align branch)' if sh_named else 'disjoint levels (cross join)'))
+            if len([n for n in bc.total_levels(lo, P.levels) if n is None or n not in D]) == 1:
+                count('option droplevel: one level left for the parameter')
+        for X, who in ((O, 'object'), (P, 'parameter')):
+            if X.rng_index:
+                Y = P if X is O else O
+                shared = X.levels[0] is not None and X.levels[0] in Y.levels
+                count('index kind RangeIndex on the %s: %s' % (who, 'level shared with the other operand' if shared else 'level of its own'))
+                if shared:
+                    j = Y.levels.index(X.levels[0])
+                    first = []
+                    for k in Y.keys:
+                        if k[j] not in first:
+                            first.append(k[j])
+                    if first != sorted(first):
+                        count('index kind RangeIndex on the %s, other operand lists the keys of that level in non-ascending order' % who)
+            if X.ties:
+                count('value ties (rows with equal values) in the %s%s' % (who, ', with droplevel' if D else ''))
+        in_drop_class = droplevel_one_level_left(O, P, D)
         if f is not None:
             what, extra = f
             if reported.get(what, 0) < 3:
-                so, sp = shrink(O, P, what) if not (in_known_class or int_named or bc.one_level_multiindex(O, P)) else (O, P)
-                if report(res, so, sp, what, extra):
+                so, sp = shrink(O, P, what, D) if not (in_known_class or int_named or bc.one_level_multiindex(O, P) or in_drop_class) else (O, P)
+                if report(res, so, sp, what, extra, D):
                     reported[what] = reported.get(what, 0) + 1
         elif not c.inq and c.ob.raised is None and not c.intact:
             # outside the quantifier nothing is promised about the result, but a normal return must not modify operands
-            report(res, O, P, W_MODIFIED, {})
-        t = bc.case_term(O, P, c.ob)
+            report(res, O, P, W_MODIFIED, {}, D)
+        if in_drop_class:
+            # open known finding outside the model (pandas returns a plain Index for one group column): the oracle above judged it
+            count('droplevel, one level left: ' + ('property holds' if f is None else 'property FAILS (known finding droplevel-one-level-left or reported)'))
+            if f is not None:
+                count('droplevel, one level left: not compared with the model (property fails on the implementation)')
+                continue
+        t = bc.case_term(O, P, c.ob, D)
         if t is None:
             stats['not expressible in the model (NaN key component / foreign row)'] = stats.get('not expressible in the model (NaN key component / foreign row)', 0) + 1
             continue
@@ -387,12 +445,12 @@ def frame_cases(res, pairs, tag):
         if in_known_class and c.inq:
             # the model reproduces the registered defects; where the implementation no longer shows one (it satisfies
             # the property on this input, judged by the oracle above) a disagreement with the model is tolerated
-            kterms.append((t, f is None, (O.describe(), P.describe())))
+            kterms.append((t, f is None, (O.describe(), P.describe(), D)))
             continue
         terms.append(t)
-        meta.append((O.describe(), P.describe()))
+        meta.append((O.describe(), P.describe()) + ((list(D),) if D else ()))
         if c.ob.rows and len(c.ob.rows) >= 2 and (len(lo) + len(P.levels)) >= 2 and c.inq:
-            nontriv.add(repr((O.describe(), P.describe())))
+            nontriv.add(repr((O.describe(), P.describe(), D)))
     return terms, meta, stats, nontriv, kterms
 
 
@@ -403,7 +461,8 @@ def run(res, only=None):
     res.trusted += ['hand-written Gallina model coq/theories/Core/Broadcast.v (pandas align/join behaviour included as observed), tied by the correspondence check',
                     'harness/bc.py: canonicalisation of pandas objects into (level names, key tuples, row numbers), Coq literals']
     res.assumptions += ['index keys are unique within an operand (the property quantifies over key sets); duplicate keys are exercised but only counted',
-                        'payloads are distinct integer-valued floats, so a result row identifies the original row it carries',
+                        'payloads are integer-valued floats, distinct per row unless a value tie is generated (then a result row identifies the tie class of the original row it carries, and the key decides which row it must be)',
+                        'droplevel: the returned parameter must have exactly the keys of the returned object without the dropped components, each once, carrying the original value of that key (reading of "identical index" under the option; model theorems drop_prm_keys / drop_prm_one_row_per_key / drop_prm_carries)',
                         'result level ORDER is compared with obj levels ++ new parameter levels only up to the rearrangement pandas align leaves for <= 2 levels (the property does not fix it)',
                         'uuid4 names never collide with user level names (model: Fresh vs User constructors)',
                         'which objects are parameter sets (keys become columns) is read from the documented rule: a Series with exactly one index level that is unnamed; '
@@ -412,7 +471,9 @@ def run(res, only=None):
                         'compared with the model (counted in the histogram); where the implementation satisfies the property they are']
     res.cov['rule'] = ('layouts: equal / disjoint / prm-in-obj / obj-in-prm / overlapping level-name sets over 5 names (15%: also the falsy / non-string names \'\', 0, 1 in any '
                        'role), 1-3 levels per operand, permuted level order, unnamed levels incl. Series and DataFrames ALL of whose 2-3 levels are unnamed, parameter-set Series, '
-                       'single level held by a one-level MultiIndex (8%); Series/DataFrame x Series/DataFrame; 1-6 rows per operand drawn from pools of 3-4 keys per level (so that positional codes coincide '
+                       'single level held by a one-level MultiIndex (8%) or by a RangeIndex (named / unnamed, mostly start 0 step 1; ~14% of the single-level operands, the other operand keeps its random key order); '
+                       'option droplevel (40% of the pairs whose object has named levels of its own: a random non-empty subset of them); value ties (30% of the parameters, 12% of the objects: rows holding equal values in every column); '
+                       'Series/DataFrame x Series/DataFrame; 1-6 rows per operand drawn from pools of 3-4 keys per level (so that positional codes coincide '
                        'and key sets differ); overlapping layouts with all shared key tuples present in both (inside the quantifier) and without (outside: counted); '
                        'non-trivial = inside the quantifier, >= 2 result rows, >= 2 levels in total (counted distinct by input)')
     proofs_ok = common.standard_proof_stage(res, 'C13')
@@ -422,7 +483,7 @@ def run(res, only=None):
     ncorp = len(pairs)
     n = 500 if quick else 6000
     for i in range(n):
-        pairs.append(bc.gen_pair(rng, maxrows=6 if i % 10 else 9))
+        pairs.append(bc.gen_case(rng, maxrows=6 if i % 10 else 9))
     terms, meta, stats, nontriv, kterms = frame_cases(res, pairs, 'generated')
     bad, log = common.coq_compare('C13', bc.REQ, terms + [k[0] for k in kterms], shard=250)
     kbad = [i - len(terms) for i in bad if i >= len(terms)]
@@ -440,7 +501,7 @@ def run(res, only=None):
     res.cov['layout/quantifier/outcome histogram'] = dict(sorted(stats.items()))
     res.cov['correspondence_disagreements'] = len(bad)
     for m in meta[ncorp:ncorp + 3] + meta[:2]:
-        res.sample({'obj': m[0], 'prm': m[1]})
+        res.sample({'obj': m[0], 'prm': m[1], 'droplevel': m[2] if len(m) > 2 else None})
 
     # ---- D2 scalar / array parameters
     cnt, rejected, aterms, ameta = scalar_array_relations(res, rng, 150 if quick else 1500)
@@ -488,7 +549,7 @@ def still_fails(entry):
         except Exception:
             return True
     O, P = _ops(w)
-    return Case(O, P).failure() is not None
+    return Case(O, P, w.get('droplevel')).failure() is not None
 
 
 def replay(res, rp):
@@ -496,11 +557,12 @@ def replay(res, rp):
     v = rp.get('violation', {})
     if v.get('path') == 'frame x frame':
         O, P = _ops(v)
-        c = Case(O, P)
+        D = v.get('droplevel')
+        c = Case(O, P, D)
         f = c.failure() or ((W_MODIFIED, {}) if (c.ob.raised is None and not c.intact) else None)
-        print('replay:', f, 'rows:', c.ob.rows)
+        print('replay:', f, 'droplevel:', D, 'rows:', c.ob.rows, 'parameter rows:', c.ob.prm_rows)
         if f:
-            report(res, O, P, f[0], f[1])
+            report(res, O, P, f[0], f[1], D)
         res.add_cases(1, 0)
         res.oblige('replayed input satisfies the property', f is None)
     elif v.get('path') == 'series x array':
